@@ -103,6 +103,21 @@ pub fn c09_script(r: &mut Rng, index: u64, _tier: Tier) -> (CaseCfg, Vec<Step>) 
                 cfg.auth = Some((str_of(*r.pick(&[0usize, 1, 64, 300]), r), { let n = *r.pick(&[0usize, 1, 64, 300]); r.bytes(n) }));
             }
             cfg.tx = *r.pick(&[64usize, 256, 1024, 8192]);
+            // one case in four: the first handshake(s) fail after a CONNACK that reports success but
+            // carries something the client refuses; the CONNECT that follows is still the first
+            // one of a session that never came to be
+            if r.chance(1, 4) {
+                for _ in 0..r.range(1, 3) {
+                    let bad = match r.below(4) {
+                        0 => vec![Prop::ReceiveMaximum(0)],
+                        1 => vec![Prop::AssignedClientId(str_of(65 + r.below(40), r))],
+                        2 => vec![Prop::MaximumQoS(3)],
+                        _ => vec![Prop::ServerKeepAlive(9), Prop::ReceiveMaximum(0)],
+                    };
+                    s.push(connect_with(SpMode::Force(false), AckMode::Immediate, bad));
+                    s.push(Step::DropConn);
+                }
+            }
             s.push(connect);
             s.push(poll0());
             // a second connection shows the CONNECT of a resumed session as well
@@ -291,6 +306,11 @@ pub fn c10_script(r: &mut Rng, _index: u64, _tier: Tier) -> (CaseCfg, Vec<Step>)
         broker: BrokerPolicy { acks: AckMode::Immediate, ping, fail_pct: 0, longform_pct: 0 },
         cancel_at: None,
     }));
+    // one case in six: a sluggish executor polls the task that arriving data woke only a while
+    // later (the PINGRESP is there in time, the client looks at it late)
+    if r.chance(1, 6) {
+        s.push(Step::Broker(BrokerAct::WakeDelay(*r.pick(&[1_000u64, 1_000_000, 4_000_000, 4_999_999, 5_000_000, 7_000_000]))));
+    }
     let base = if eff == 0 { 10_000_000 } else { eff.min(100_000_000) };
     // one case in six: the poll that writes the PINGREQ is given up after the first of its two
     // bytes (transport that pends before every write and takes one byte at a time), the
